@@ -203,6 +203,12 @@ class Builder:
             return eval(s["v"], dict(TYPE_NS))
         if k == "func":
             return self.build_func(s)
+        if k == "partial":
+            import functools
+
+            return functools.partial(self.build(s["func"]), *[self.build(x) for x in s["xs"]], **{n: self.build(v) for n, v in s["kw"].items()})
+        if k == "method":
+            return getattr(self.build(s["obj"]), s.get("attr", "method"))
         if k == "def":
             v = self.build(s["v"])
             self.env[s["name"]] = v
@@ -384,6 +390,12 @@ class Caser:
                 return {"t": "code", "id": i, "xs": [self.case(x) for x in code_items(o)]}
             if t is types.FunctionType:
                 return self.func_case(o, i)
+            import functools
+
+            if t is functools.partial:
+                return {"t": "partial", "id": i, "xs": [self.case(o.func), self.case(o.args), self.case(o.keywords)]}
+            if t is types.MethodType:
+                return {"t": "method", "id": i, "xs": [self.case(o.__func__), self.case(o.__self__)]}
             from pydra.compose.base import Task
 
             if isinstance(o, Task):
@@ -682,6 +694,10 @@ def canon(s, env=None, stack=()):
         # … except for functions without source: they are hashed through their code object, whose co_name is content
         is_exec = s.get("mode", "module") == "exec"
         return ["func", bool(s.get("lambda")), list(s["params"]), list(s["body"]), is_exec, s.get("name", "f") if is_exec else None]
+    if k == "partial":
+        return ["partial", canon(s["func"], env, stack), [canon(x, env, stack) for x in s["xs"]], sorted((n, canon(v, env, stack)) for n, v in s["kw"].items())]
+    if k == "method":
+        return ["method", s.get("attr", "method"), canon(s["obj"], env, stack)]
     if k == "def":
         c = canon(s["v"], env, stack)
         env[s["name"]] = s["v"]  # bound after the value is built (an inner definition of the same name is shadowed again)
@@ -730,6 +746,10 @@ def walk(s):
         yield from walk(v)
     if s["k"] == "def":
         yield from walk(s["v"])
+    if s["k"] == "partial":
+        yield from walk(s["func"])
+    if s["k"] == "method":
+        yield from walk(s["obj"])
     for v in (s.get("closure") or {}).values():
         yield from walk(v)
 
@@ -865,8 +885,10 @@ def gen_value(rng, depth: int, names: list | None = None, allow=None):
             return gen_ndarray(rng)
         if r2 < 0.86:
             return {"k": "type", "v": rng.choice(TYPE_EXPRS)}
-        if r2 < 0.92:
+        if r2 < 0.9:
             return gen_func(rng)
+        if r2 < 0.93:
+            return gen_partial(rng, min(depth, 1) + 1) if rng.random() < 0.5 else gen_method(rng, min(depth, 1) + 1)
         if r2 < 0.96:
             return {"k": "path", "cls": rng.choice(["PosixPath", "PurePosixPath"]), "v": rng.choice(["/a", "/a/b", "rel/x", "/a b"])}
         return {"k": "enum", "v": rng.choice(["RED", "GREEN"])}
@@ -909,6 +931,23 @@ def gen_value(rng, depth: int, names: list | None = None, allow=None):
     return {"k": "list", "xs": [{"k": "def", "name": name, "v": inner}, {"k": "use", "name": name}] + [gen_value(rng, depth - 2, names) for _ in range(rng.randint(0, 2))]}
 
 
+def gen_partial(rng, depth=1):
+    """functools.partial of a generated function (or of a builtin) with positional and keyword arguments"""
+    func = {"k": "type", "v": "int"} if rng.random() < 0.25 else gen_func(rng, allow_lambda=False)
+    return {
+        "k": "partial",
+        "func": func,
+        "xs": [gen_value(rng, depth - 1) for _ in range(rng.randint(0, 2))],
+        "kw": {n: gen_scalar(rng) for n in rng.sample(["y", "base", "flag"], rng.randint(0, 2))},
+    }
+
+
+def gen_method(rng, depth=1):
+    """a method bound to a generated instance"""
+    cls = rng.choice(["PlainA", "PlainB", "PlainDunder"])
+    return {"k": "method", "obj": {"k": "obj", "cls": cls, "kw": {"x": gen_value(rng, depth - 1), "y": gen_scalar(rng)}}}
+
+
 def gen_cyclic(rng):
     """small cyclic values (lists / dicts / objects referring to themselves or to each other)"""
     r = rng.randint(0, 3)
@@ -944,6 +983,14 @@ def _replace_random_node(rng, s, fn):
                 collect(n["kw"][nm], lambda v, n=n, nm=nm: n["kw"].__setitem__(nm, v))
         elif n["k"] == "def":
             collect(n["v"], lambda v, n=n: n.__setitem__("v", v))
+        elif n["k"] == "partial":
+            collect(n["func"], lambda v, n=n: n.__setitem__("func", v))
+            for j in range(len(n["xs"])):
+                collect(n["xs"][j], lambda v, n=n, j=j: n["xs"].__setitem__(j, v))
+            for nm in list(n["kw"]):
+                collect(n["kw"][nm], lambda v, n=n, nm=nm: n["kw"].__setitem__(nm, v))
+        elif n["k"] == "method":
+            collect(n["obj"], lambda v, n=n: n.__setitem__("obj", v))
 
     box = [s]
     collect(s, lambda v: box.__setitem__(0, v))
@@ -1061,6 +1108,19 @@ def mutate(rng, s):
             opts.append(({**n, "items": it + [[_s("zz_new"), {"k": "none"}]]}, "dict:item-added") if all(kv[0]["k"] == "str" for kv in it) else None)
             opts = [o for o in opts if o]
             return rng.choice(opts) if opts else None
+        if k == "partial":
+            opts = [({**n, "xs": n["xs"] + [{"k": "none"}]}, "partial:arg-added")]
+            if n["xs"]:
+                opts.append(({**n, "xs": n["xs"][:-1]}, "partial:arg-dropped"))
+            if n["kw"]:
+                nm = sorted(n["kw"])[0]
+                opts.append(({**n, "kw": {a: v for a, v in n["kw"].items() if a != nm}}, "partial:keyword-dropped"))
+                opts.append(({**n, "kw": {("z" + a if a == nm else a): v for a, v in n["kw"].items()}}, "partial:keyword-renamed"))
+            else:
+                opts.append(({**n, "kw": {"y": {"k": "int", "v": "1"}}}, "partial:keyword-added"))
+            return rng.choice(opts)
+        if k == "method":
+            return ({"k": "partial", "func": {"k": "type", "v": "int"}, "xs": [], "kw": {}}, "type:method->partial")
         if k == "obj":
             other = {"AttrsA": "AttrsB", "AttrsB": "AttrsA", "SlotsA": "SlotsB", "SlotsB": "SlotsA", "PlainA": "PlainB", "PlainB": "PlainA", "AttrsDict": "PlainA", "PlainDunder": "PlainA"}[n["cls"]]
             opts = [({**n, "cls": other}, "type:class-name")]
@@ -1122,6 +1182,10 @@ def unshare(s, env=None):
         s["items"] = [[kv[0], unshare(kv[1], env)] for kv in s["items"]]
     if "kw" in s:
         s["kw"] = {n: unshare(v, env) for n, v in s["kw"].items()}
+    if s["k"] == "partial":
+        s["func"] = unshare(s["func"], env)
+    if s["k"] == "method":
+        s["obj"] = unshare(s["obj"], env)
     return s
 
 
